@@ -1207,6 +1207,8 @@ func (r *runner) execOp(op *Op, tx *txCtx) {
 			simrt.Quiesce()
 			simrt.Progress()
 		}
+	case "fsrw":
+		r.fsRW(uint64(op.Ms) + 1)
 	case "heal":
 		r.disk.Healed = true
 	case "measure":
